@@ -202,6 +202,9 @@ class QlassF(QCircuitWrapper):
     def decode_output(
         self, istr: Union[str, int, List[bool]]
     ) -> Union[bool, Tuple, Qtype]:
+        if isinstance(istr, int):
+            # an integer reading spells the whole register: leading zeros count
+            istr = format(istr, f"0{len(self.returns)}b")
         fcome = format_outcome(istr)[::-1]  # TODO: we need an endianess paramter
         return interpret_as_qtype(fcome[::-1], self.returns.ttype, len(self.returns))
 
